@@ -167,6 +167,8 @@ def to_query(a):
     if op == "numrange":
         return query.NumericRange(a["f"], a["lo"] if a["haslo"] else None, a["hi"] if a["hashi"] else None,
                                   startexcl=a["loexcl"], endexcl=a["hiexcl"], boost=b)
+    if op == "sequence":
+        return query.Sequence([to_query(k) for k in a["kids"]], slop=a["slop"], ordered=a["ordered"])
     if op.startswith("span"):
         from whoosh.query import spans
         if op == "spanor":
@@ -193,7 +195,10 @@ def rand_span_query(rng, depth, f=None, nletters=2, maxlen=2):
         return term()
     sub = lambda: rand_span_query(rng, depth - 1, f, nletters, maxlen) if rng.random() < 0.5 else term()
     op = rng.choice(["spanor", "spanfirst", "spannear", "spannear", "spannear2", "spannot", "spancontains", "spanbefore",
-                     "spancond", "or"])
+                     "spancond", "or", "sequence"])
+    if op == "sequence":
+        return {"op": "sequence", "kids": [term() for _ in range(rng.randrange(1, 5))], "slop": rng.choice([1, 1, 2, 3]),
+                "ordered": rng.random() < 0.6}
     if op == "or":
         return {"op": "or", "kids": [term() for _ in range(rng.randrange(2, 4))], "b4": 4}
     if op == "spanor":
